@@ -220,18 +220,29 @@ func doCheck(id, tier string) int {
 			rf := &ReplayFile{Property: id, Engine: a.run.spec.name, Label: a.run.label, Extra: a.run.extra, Race: a.run.spec.race, Seed: seed, Idx: f.Idx, Expect: f.V, Tape: f.Tape, Trace: f.Trace, Report: f.Report}
 			// obtain tape and trace when the worker could not deliver them (race, crash)
 			if len(rf.Tape) == 0 {
-				tc := *a.cfg
-				tc.trace = true
-				o := runOnce(&tc, f.Idx, "", 180*time.Second)
-				if o.crash != nil && o.crash.V.Kind == k.kind {
-					rf.Expect.Detail = o.crash.V.Detail
-					rf.Report = o.crash.Report
-				}
-				if o.res != nil {
-					rf.Tape, rf.Trace = o.res.Tape, o.res.Trace
-				}
-				if !hasClass(o, k) {
-					rf.Note = "re-running this run index in a fresh process did not reproduce the same class; the original report is attached"
+				// (a race report can depend on what the process did before the run - which accesses the
+				// detector still remembers -, so when the first affected run does not show the class
+				// alone in a fresh process, the next affected runs are tried before giving up)
+				for try := 0; try < len(fs) && try < 4; try++ {
+					cand := fs[try]
+					tc := *a.cfg
+					tc.trace = true
+					o := runOnce(&tc, cand.Idx, "", 180*time.Second)
+					if try == 0 || hasClass(o, k) {
+						rf.Idx, rf.Expect, rf.Report, rf.Note = cand.Idx, cand.V, cand.Report, ""
+						if o.crash != nil && o.crash.V.Kind == k.kind {
+							rf.Expect.Detail = o.crash.V.Detail
+							rf.Report = o.crash.Report
+						}
+						if o.res != nil {
+							rf.Tape, rf.Trace = o.res.Tape, o.res.Trace
+						}
+					}
+					if hasClass(o, k) {
+						f = cand
+						break
+					}
+					rf.Note = "re-running the affected run indexes in fresh processes did not reproduce the same class; the original report is attached"
 				}
 			}
 			rf.TapeLen0 = len(rf.Tape)
